@@ -146,6 +146,8 @@ impl Runner {
                     }
                 }
                 "fu" => match ctor.as_str() {
+                    // (`new` and `Default` are the same request; the capacity field is unused here and picks one)
+                    "new" if cap % 2 == 1 => Subject::Fu(FuturesUnordered::default()),
                     "new" => Subject::Fu(FuturesUnordered::new()),
                     "from_iter" => Subject::Fu(init.iter().map(|c| SFut::new(*c)).collect()),
                     // an iterator that under-reports its length (lower bound 0)
@@ -165,6 +167,7 @@ impl Runner {
                 }
                 "fo" => {
                     let mut q = match ctor.as_str() {
+                        "new" if cap % 2 == 1 => FuturesOrdered::default(),
                         "new" => FuturesOrdered::new(),
                         "from_iter" => init.iter().map(|c| SFut::new(*c)).collect(),
                         "from_iter_lazy" => init.iter().filter(|_| true).map(|c| SFut::new(*c)).collect(),
@@ -178,6 +181,7 @@ impl Runner {
                 // MergeBounded offers only FromIterator: its capacity is the number of initial sources
                 "mb" => Subject::Mb(init.iter().map(|c| SStream::new(*c)).collect()),
                 "mu" => match ctor.as_str() {
+                    "new" if cap % 2 == 1 => Subject::Mu(MergeUnbounded::default()),
                     "new" => Subject::Mu(MergeUnbounded::new()),
                     "from_iter" | "from_iter_lazy" => Subject::Mu(init.iter().filter(|_| true).map(|c| SStreamU::new(*c)).collect()),
                     // (the seeding constructor is not part of the crate's interface: capacity 0 is not a legal request)
@@ -340,6 +344,11 @@ impl Runner {
                 Subject::Fob(q) => match (try_, front) {
                     (true, false) => q.try_push_back(SFut::new(c)).err().map(|f| keep_back(f.id == c, f)),
                     (true, true) => q.try_push_front(SFut::new(c)).err().map(|f| keep_back(f.id == c, f)),
+                    // `Extend` is push_back for every item
+                    (false, false) if c % 3 == 0 => {
+                        q.extend(std::iter::once(SFut::new(c)));
+                        None
+                    }
                     (false, false) => {
                         q.push_back(SFut::new(c));
                         None
@@ -352,6 +361,8 @@ impl Runner {
                 Subject::Fo(q) => {
                     if front {
                         q.push_front(SFut::new(c))
+                    } else if c % 3 == 0 {
+                        q.extend(std::iter::once(SFut::new(c)))
                     } else {
                         q.push_back(SFut::new(c))
                     }
